@@ -16,6 +16,7 @@ type Size struct {
 	PlainGPUs []int          `json:"plain_gpus"`
 	Quick     bool           `json:"quick"`
 	Timing    bool           `json:"timing"`
+	Spread    bool           `json:"spread"` // enough work-groups for a unified device to really spread them
 	Why       string         `json:"why"`
 }
 
@@ -133,7 +134,9 @@ type LatticeStats struct {
 // C01Cases enumerates the C01 lattice for a tier.
 //
 // quick: emulation only; sizes marked quick (2 per workload); every shipped
-// arch; GPU sets {1}, {1,2} plain and {1,2} unified; unified memory off/on.
+// arch; GPU sets {1}, {1,2} plain and {1,2} unified; unified memory off/on;
+// plus the many-work-group size (marked spread) on the unified {1,2} device,
+// the only quick point where a unified device really spreads work-groups.
 //
 // thorough: emulation over the full product size x arch x {g1,g12,g1234,u12,
 // u1234} x UM{off,on}; timing over the configuration classes cases.go lists
@@ -157,18 +160,21 @@ func (m *Matrix) C01Cases(thorough bool) ([]Case, LatticeStats) {
 	for i := range m.Workloads {
 		e := &m.Workloads[i]
 		for _, s := range e.Sizes {
-			if !thorough && !s.Quick {
+			if !thorough && !s.Quick && !s.Spread {
 				continue
 			}
 			for _, a := range e.Archs {
 				for _, g := range sets {
+					if !thorough && !s.Quick && !g.Unified {
+						continue // quick: the many-work-group size only on the unified device
+					}
 					if ok, _ := e.Admissible(s, g); !ok {
 						st.Inadmissible++
 						continue
 					}
 					for _, um := range []bool{false, true} {
-						if um && !e.UM {
-							continue
+						if um && (!e.UM || s.Spread) {
+							continue // the many-work-group sizes run without unified memory only (cost)
 						}
 						add(Case{Workload: e.Name, Params: s.Params, SizeName: s.Name, Arch: a,
 							GPUs: g.GPUs, Unified: g.Unified, UM: um, Mode: "emu"})
